@@ -38,8 +38,10 @@ F(p) == IF p \in DOMAIN FT THEN FT[p] ELSE 0
 mem == [p \in Pos |-> p \in Space]
 fobj == [p \in Pos |-> F(p)]
 
-VARIABLES pc, pop, snaps, evo, calls, steps, best
-vars == <<pc, pop, snaps, evo, calls, steps, best>>
+VARIABLES pc, pop, snaps, evo, calls, steps, best,
+          act       \* history variable: <<kind, raw candidates>> of Enter and of every Step (hidden from the fingerprint by VIEW)
+vars == <<pc, pop, snaps, evo, calls, steps, best, act>>
+view == <<pc, pop, snaps, evo, calls, steps, best>>
 seen == [p \in Pos |-> p \in calls]
 
 \* the agent factory: Task.initial_solution corrects, Task.solve corrects AGAIN and evaluates
@@ -56,12 +58,13 @@ Trim(p, n) == SubSeq(p, 1, IF Len(p) < n THEN Len(p) ELSE n)
 Pick(old, new) == IF (IF Dev = "inverted" THEN new.c > old.c ELSE new.c < old.c) THEN new ELSE old
 
 Init == /\ pc = "enter" /\ pop = <<>> /\ snaps = <<>> /\ evo = <<>> /\ calls = {} /\ steps = 0
-        /\ best = [p |-> 1, u |-> 0]
+        /\ best = [p |-> 1, u |-> 0] /\ act = <<>>
 
 Enter == /\ pc = "enter"
          /\ \E rs \in [1..N -> Raw] :
                /\ pop' = [k \in 1..N |-> InitAgent(rs[k])]
                /\ calls' = {ArgOf(rs[k]) : k \in 1..N}
+               /\ act' = <<<<"enter", rs>>>>
          /\ snaps' = <<pop'>> /\ evo' = <<ReportedAsCoded(pop')>>
          /\ pc' = "run" /\ UNCHANGED <<steps, best>>
 
@@ -81,6 +84,7 @@ Step == /\ pc = "run"
         /\ \E kind \in Kinds : \E m \in 1..(N + 1) : \E rs \in [1..m -> Raw] :
               /\ StepKind(kind, rs)
               /\ calls' = calls \cup {ArgOf(rs[k]) : k \in 1..m}
+              /\ act' = Append(act, <<kind, rs>>)
         /\ steps' = steps + 1
         /\ pc' = "snap" /\ UNCHANGED <<snaps, evo, best>>
 
@@ -93,22 +97,22 @@ StepMutate ==       \* an agent shared with the recorded history is updated in p
           /\ evo' = IF Dev = "mutate"                        \* generations hold the same agent objects (min tasks)
                     THEN [evo EXCEPT ![Len(evo)][1] = [p |-> q, u |-> Sign(Dir) * pop'[1].c]]
                     ELSE evo
-    /\ steps' = steps + 1 /\ pc' = "snap" /\ UNCHANGED <<snaps, best>>
+    /\ steps' = steps + 1 /\ pc' = "snap" /\ act' = Append(act, <<"mutate", <<>>>>) /\ UNCHANGED <<snaps, best>>
 
 Snapshot == /\ pc = "snap"
             /\ snaps' = Append(snaps, pop) /\ evo' = Append(evo, ReportedAsCoded(pop))
-            /\ pc' = "check" /\ UNCHANGED <<pop, calls, steps, best>>
+            /\ pc' = "check" /\ UNCHANGED <<pop, calls, steps, best, act>>
 
 \* the stop decision is StopRule's business; here any decision consistent with the cycle bound
 Check == /\ pc = "check"
          /\ \/ pc' = "return"
             \/ steps < MC /\ pc' = "run"
-         /\ UNCHANGED <<pop, snaps, evo, calls, steps, best>>
+         /\ UNCHANGED <<pop, snaps, evo, calls, steps, best, act>>
 
 BestOf(p) == LET s == Sorted(p) IN IF Dev = "wrongbest" THEN s[Len(s)] ELSE s[1]
 Return == /\ pc = "return"
           /\ best' = [p |-> BestOf(pop).p, u |-> Sign(Dir) * BestOf(pop).c]
-          /\ pc' = "done" /\ UNCHANGED <<pop, snaps, evo, calls, steps>>
+          /\ pc' = "done" /\ UNCHANGED <<pop, snaps, evo, calls, steps, act>>
 
 Next == Enter \/ Step \/ StepMutate \/ Snapshot \/ Check \/ Return
 Spec == Init /\ [][Next]_vars /\ WF_vars(Next)
